@@ -33,7 +33,7 @@ bounds = c04.bounds
 
 
 def plan(tier, seed):
-    return [{"long_contig": True}, {"big_nodes": True}] + c04.plan(tier, seed)
+    return [{"long_contig": True}, {"big_nodes": True}, {"prefix_contigs": True}] + [x for x in c04.plan(tier, seed) if "layout" in x]
 
 
 def contig_end(g, c):
@@ -163,9 +163,29 @@ def big_nodes(res, scratch):
         regions_for = orig
 
 
+def prefix_contigs(res, scratch):
+    """two reference contigs, the name of one being a proper prefix of the other's (chr1 / chr10), with nodes at the same
+    coordinates; every region on either, every pair of regions on a six-region subset"""
+    for second in ("chr10", "chr1_KI270706v1_random"):
+        L = gen.Layout((2, 1), "one", 1, second_ref=(1, 2), second_name=second)
+        g = L.graph([("s1", "+", "s2", "+", "0M"), ("s4", "+", "s5", "+", "0M")])
+        urecs = [gen.walk_record(i, [(">", n)], 0, g.segs[n].LN, g.segs[n].LN) for i, n in enumerate(g.segs) if n != "s2"]  # s2 (chr1) stays unaligned
+        for stable in (False, True):
+            recs = [rgfa.to_stable_model(g, r) for r in urecs] if stable else urecs
+            P = c04.Prepared(scratch, g, L, "realistic", stable, "one-record-per-node", recs, "plain", "prefix")
+            if P.ind is None:
+                res.fail("C05/index-failed", f"index failed: {P.index_out.brief()}", P.case({"regions": []}, None))
+                continue
+            region_queries(res, P)
+            res.count("files_with_prefix_contig_names")
+
+
 def run_shard(spec, tier, scratch):
     res = fw.ShardResult().begin(spec, tier)
     b = bounds(tier)
+    if spec.get("prefix_contigs"):
+        prefix_contigs(res, scratch)
+        return res
     if spec.get("long_contig"):
         long_contig(res, scratch)
         return res
@@ -186,7 +206,7 @@ def run_shard(spec, tier, scratch):
 def replay(case, scratch):
     res = fw.ShardResult()
     L = conv.layout_from(case["layout"])
-    if len(L.ref_lens) == 30 or L.scale == BIG_SCALE:
+    if len(L.ref_lens) == 30 or L.scale == BIG_SCALE or case["layout"].get("second_name"):
         return []  # the long-contig / long-node files are re-created through their call sequence
     g = vi.graph_for(L, case["linkmode"])
     recs = [rgfa.Rec.parse(l) for l in case["records"]]
